@@ -65,7 +65,7 @@ class C07:
                     elif k.startswith("secret"): all_draws.append(int(v, 16))
         for suite in P.SUITES:
             keys = P.make_keys(S, suite, 2)
-            flows = P.honest_sigs(S, suite, keys, [(3, b"h"), (5, None), (1, b""), (45, b"L")])
+            flows = P.honest_sigs(S, suite, keys, [(3, b"h"), (5, None), (1, b""), (45, b"L"), (300, b"XL")])
             # message scalars for the window scan
             for f in flows:
                 r = S.run(["ms2s %s %s %s" % (suite, tl(f["msgs"]), tb(pyc.API[suite]))], expect="ok", label="triv:ms2s")[0]
@@ -73,7 +73,8 @@ class C07:
             # identical inputs, many times (one batch => spread over 16 threads)
             f = flows[0]; D = [1]
             # the last flow hides 44 messages: more blinding scalars in ONE transcript than any batch size a generator might use
-            fi = [(f, D, b"ph")] * n_rep + [(g, [0], None) for g in flows[1:3] for _ in range(n_rep // 3)] + [(flows[3], [0], None)] * 2
+            # (the 300-message flow hides 299: more scalars than two blocks of any expander-based generation)
+            fi = [(f, D, b"ph")] * n_rep + [(g, [0], None) for g in flows[1:3] for _ in range(n_rep // 3)] + [(flows[3], [0], None)] * 2 + [(flows[4], [7], None)]
             proofs = P.honest_proofs(S, fi, label="proofgen-repeat")
             res_lines = [c for c in S.cases[-len(fi):]]
             for c in res_lines: note_draws(c[1])
@@ -87,8 +88,11 @@ class C07:
                     if h in pr:
                         P.fail(S, "proof-exposes-secret", "a hidden scalar / A / e appears verbatim in the proof", [pr.hex(), h.hex()])
                 # witness-side recomputation of the blindings from responses and challenge
-                dr = [int(d.partition("=")[2], 16) for d in c[1].draws[2:].split(",")]
+                dr = [int(d.partition("=")[2], 16) for d in c[1].draws[2:].split(",")] if c[1].draws else []
                 U = len(p["msgs"]) - len(p["D"])
+                if len(dr) != 5 + U:
+                    P.fail(S, "draw-log-shape", "proof_gen logged %d random draws for a proof with %d hidden messages (5 + U expected): the blindings are not one fresh draw each" % (len(dr), U), [c[0][:300]])
+                    dr = dr + [1] * (5 + U - len(dr))
                 e = int.from_bytes(p["sig"][48:], "big")
                 sc = [int.from_bytes(pr[144 + 32*i:176 + 32*i], "big") for i in range(3 + U + 1)]
                 ch = sc[-1]; e_cap, r1_cap, r3_cap = sc[0], sc[1], sc[2]
@@ -120,7 +124,7 @@ class C07:
                 sc = [int.from_bytes(cw[48 + 32*i:80 + 32*i], "big") for i in range(len(msc) + 2)]
                 ch = sc[-1]
                 rec = [(sc[0] - blind * ch) % pyc.R] + [(sc[1 + i] - msc[i] * ch) % pyc.R for i in range(len(msc))]
-                dr = [int(d.partition("=")[2], 16) for d in r.draws[2:].split(",")]
+                dr = [int(d.partition("=")[2], 16) for d in r.draws[2:].split(",")] if r.draws else []
                 if sorted(rec + [blind]) != sorted(dr): P.fail(S, "blinding-recompute", "recomputed commitment blindings differ from the logged draws", ["commit %s <40 messages>" % suite])
                 if 0 in rec or len(set(rec + [blind])) != len(rec) + 1:
                     P.fail(S, "blinding-zero-or-repeated", "zero or repeated blinding within one commitment transcript", ["commit %s <40 messages>" % suite])
@@ -358,6 +362,21 @@ class C09:
             r = S.run(["dec pk2xy %s" % tb(pk)], label="triv")[0]
             xy = r.b(0)
             add("pkxy", bytes([0x40]) + bytes(191), True, "identity-pk-xy")
+            # the OTHER serialisation of the same object handed to the octet decoders: a second octet string for one object
+            for sk_, pk_ in keys:
+                rxy = S.run(["dec pk2xy %s" % tb(pk_)], label="triv")[0]
+                if rxy.status == "OK": add("pk", rxy.b(0), True, "uncompressed-form-of-the-same-object")
+            def g1_unc(cb):
+                x = int.from_bytes(bytes([cb[0] & 0x1f]) + cb[1:48], "big"); y = pyc.fp_sqrt((x * x * x + 4) % pyc.FP)
+                if y is None: return None
+                if (y > (pyc.FP - 1) // 2) != bool(cb[0] & 0x20): y = pyc.FP - y
+                return x.to_bytes(48, "big") + y.to_bytes(48, "big")
+            ua = g1_unc(sig[:48])
+            if ua:
+                add("sig", ua + sig[48:], True, "uncompressed-form-of-the-same-object")
+                add("proof", ua + pr[48:], True, "uncompressed-form-of-the-same-object")
+            uc = g1_unc(cwp[:48])
+            if uc: add("commit", uc + cwp[48:], True, "uncompressed-form-of-the-same-object")
             for _ in range(20 if tier == "quick" else 200):
                 # random point encodings: compressed flag set, random x (off curve or outside the subgroup)
                 x = bytearray(P.rb(rng, 48)); x[0] = (x[0] & 0x1f) | 0x80 | (rng.getrandbits(1) << 5)
@@ -613,6 +632,9 @@ class C11:
                 add(P.pv_line(p, suite=other), "proof:other-suite")
                 for st in (suite, other):
                     add("blindproofverify %s %s %s %s %s %s %s L %s I" % (st, tb(p["pk"]), tb(p["proof"]), tob(p["header"]), tob(p["ph"]), tou(len(p["msgs"])), tl(P.pick(p["msgs"], p["D"])), ti(p["D"])), "proof:blind-interface")
+                    # ... and with every blind-specific argument ABSENT (L, committed messages, their indexes): still the blind interface
+                    add("blindproofverify %s %s %s %s %s N %s N %s N" % (st, tb(p["pk"]), tb(p["proof"]), tob(p["header"]), tob(p["ph"]), tl(P.pick(p["msgs"], p["D"])), ti(p["D"])), "proof:blind-interface-absent-args")
+                    add("blindproofverify %s %s %s %s %s N %s N %s N" % (st, tb(p["pk"]), tb(p["proof"]), tob(p["header"]), tob(p["ph"]), tol(P.pick(p["msgs"], p["D"]) or None), toi(p["D"] or None)), "proof:blind-interface-absent-args")
             for b in bfl:
                 add("blindsign %s %s %s %s %s %s" % (other, tb(b["sk"]), tb(b["pk"]), tob(b["cwp"]), tob(b["header"]), tl(b["msgs"])), "commit:other-suite")
                 add(P.bv_line(b, suite=other), "blindsig:other-suite")
